@@ -55,10 +55,24 @@ pub struct Written<const K: usize> {
 /// new -> K x write_sample -> flush of the last chunk, on a 16-byte output buffer.
 /// Returns the writer (not yet ended) and the oracle record. `dur_limit`: exclusive bound on each
 /// duration (C01/C02 keep u32 chunk_duration from overflowing, which is C17's subject).
+///
+/// Timescales: the writer converts the media duration to movie ticks with a 128-bit division by the
+/// track timescale on every sample; with symbolic timescales that one division dominates the query
+/// (K=1: 660 s, K=2: out of memory). `TIMESCALES` = Some((track, movie)) fixes them per harness
+/// (the chunk-flush decision `chunk duration >= track timescale` is still explored for every
+/// duration); `t_h01sym__*` keeps both symbolic for K=1.
+pub static mut TIMESCALES: Option<(u32, u32)> = Some((1000, 90000));
+
 pub fn run_history<const K: usize>(kind: Kind, lens: [usize; K], out: &mut [u8; 16], dur_limit: u32) -> Option<(VerifTrackWriter, Written<K>)> {
-    let track_ts: u32 = kani::any();
-    let movie_ts: u32 = kani::any();
-    kani::assume(track_ts >= 1 && movie_ts >= 1);
+    let (track_ts, movie_ts) = match unsafe { TIMESCALES } {
+        Some(p) => p,
+        None => {
+            let a: u32 = kani::any();
+            let b: u32 = kani::any();
+            kani::assume(a >= 1 && b >= 1);
+            (a, b)
+        }
+    };
     let cfg = track_config(kind, track_ts);
     let mut tw = match VerifTrackWriter::new(1, &cfg) {
         Ok(t) => t,
@@ -473,6 +487,21 @@ macro_rules! hist {
             h01_hist::<$k>($kind, $lens)
         }
     };
+}
+
+/// K=1 with both timescales symbolic (thorough)
+#[kani::proof]
+#[kani::unwind(4)]
+fn t_h01sym__ttxt_k1_len1_any_timescales() {
+    unsafe { TIMESCALES = None };
+    h01_hist::<1>(Kind::Ttxt, [1])
+}
+/// a second concrete pair: track timescale finer than the movie's
+#[kani::proof]
+#[kani::unwind(5)]
+fn q_h01ts__ttxt_k2_len11_ts90000_movie600() {
+    unsafe { TIMESCALES = Some((90000, 600)) };
+    h01_hist::<2>(Kind::Ttxt, [1, 1])
 }
 
 // every media kind, one sample
